@@ -50,8 +50,9 @@ def run_mbt(ctx, module, consts, label, base_heap="Heap0", invariants=("Emit", "
     for f in (outfile, basefile):
         if os.path.exists(os.path.join(d, f)):
             os.remove(os.path.join(d, f))
+    # a big Java stack: recursive operators of the specification walk 65536-element containers
     ctx.tlc(module, cfg, simulate=simulate, depth=depth, timeout=timeout, label=label,
-            workers=workers)
+            workers=workers, xss="512m")
     vec = os.path.join(d, outfile)
     if not os.path.exists(vec) or os.path.getsize(vec) == 0:
         raise core.Broken("%s: the specification emitted no vectors" % label)
@@ -66,8 +67,12 @@ def absorb(ctx, summ, how, spec):
     ctx.nontrivial_extra += summ["distinct"]
     for s in (summ.get("samples") or []):
         ctx.sample(s)
-    if summ.get("unreproduced", 0) > 0:
+    # disagreements that did not reproduce when re-run alone are not counted; if nothing but such
+    # disagreements was seen, the run has no verdict (reproduced ones stand on their own)
+    if summ.get("unreproduced", 0) > 0 and not (summ.get("by_sig") or {}):
         raise core.Broken("%d disagreements did not reproduce when re-run alone" % summ["unreproduced"])
+    if summ.get("unreproduced", 0) > 0:
+        ctx.notes.append("%d further disagreements did not reproduce when re-run alone" % summ["unreproduced"])
     shown = {}
     for dg in (summ.get("disagreements") or []):
         shown.setdefault(dg["sig"], dg)
